@@ -34,6 +34,12 @@ type Ptr struct {
 	Elem types.Type // pointee type
 }
 
+// CellV is a source-level variable that go/ssa keeps in a memory cell (captured by a closure): a contract that names the
+// variable means the cell's content in the state the contract is evaluated in.
+type CellV struct {
+	P Ptr
+}
+
 // FnV is a function value: a named function or a closure.
 type FnV struct {
 	Fn   *ssa.Function
